@@ -163,7 +163,7 @@ class _Lines:
 
 def run_c(binary, conf, opgen, N, errpath):
     """drive the C harness: returns (process, configuration dump, c_op); c_op(op) sends one op and returns the lines of its answer
-    ("DIED" as last element if the process died or did not answer within 20 s)"""
+    ("DIED" as last element if the process died or did not answer within 90 s)"""
     p = subprocess.Popen([binary, conf], stdin=subprocess.PIPE, stdout=subprocess.PIPE, stderr=open(errpath, 'w'), bufsize=0,
                          env=dict(ASAN_ENV, ASAN_OPTIONS=ASAN_ENV['ASAN_OPTIONS'].replace('detect_leaks=0', 'detect_leaks=1')))
     rd = _Lines(p.stdout)
@@ -182,11 +182,11 @@ def run_c(binary, conf, opgen, N, errpath):
             return ["DIED"]
         res = []
         while True:
-            # one pass of the real code never takes seconds: no answer within 20 s means it spins or blocks (a wedged daemon)
-            l = rd.readline(20.0)
+            # one pass of the real code never takes seconds: no answer within 90 s means it spins or blocks (a wedged daemon)
+            l = rd.readline(90.0)
             if l is None:
                 p.kill()
-                open(errpath, 'a').write('\nHUNG: no answer to one pass within 20 s; the process was killed\n')
+                open(errpath, 'a').write('\nHUNG: no answer to one pass within 90 s; the process was killed\n')
                 res.append("DIED"); return res
             if l == '' and rd.eof:
                 res.append("DIED"); return res
